@@ -169,3 +169,79 @@ Example C13_py_ex2 :
   cpy_format re_d_value [123;97;125;32;123;58;100;125;32;123;33;114;58;62;53;125] [BInt 7; BFloat] [([97], BStr [120])] = FSuccess /\
   flat_guard gen_ucd 17 [123;97;125;32;123;58;100;125;32;123;33;114;58;62;53;125] = true.
 Proof. repeat split; vm_compute; reflexivity. Qed.
+
+(* ---------------------------------------------------------------- source ties (notes/SRC12.md) ----------------
+   Generated/BraceSrc.v is the translation of lib/strformat/perlbrace.py and pybrace.py of the working tree, made by
+   tools/gen/gen_brace_src.py at the start of every check.  The theorems below say that it equals the models used above, for all
+   arguments; an edit of the Python code changes the generated definitions and these proofs stop compiling.
+   The regular expressions stay the models' scanners; their pattern TEXT is tied as data. *)
+From I18n Require Import Model.FmtBracePy Generated.BraceSrc Proofs.BraceSrcPerl Proofs.BraceSrcPy Proofs.BraceSrcGen.
+
+Theorem C13_source_tie_perl_patterns :
+  src_perlbrace_field_re_pattern = perlbrace_field_re_pattern /\ src_perlbrace_printable_pattern = printable_pattern /\
+  src_perlbrace_error_classes = [(str_Error, str_Exception)].
+Proof. exact src_perlbrace_patterns. Qed.
+Print Assumptions C13_source_tie_perl_patterns.
+
+(* perlbrace.FormatString.__init__: (_items, arguments) or the exception, for every string and every \w, \d *)
+Theorem C13_source_tie_perl_init : forall is_w is_d s,
+  src_perlbrace_init (perl_finditer is_w is_d) s = of_perl (perl_parse is_w is_d s).
+Proof. exact src_perlbrace_init_eq. Qed.
+Print Assumptions C13_source_tie_perl_init.
+
+Theorem C13_source_tie_perl_init_generated_tables : forall s,
+  src_perlbrace_init (perl_finditer re_w re_d) s = of_perl (fst (perl_parse_ucd s)).
+Proof. exact src_perlbrace_init_gen. Qed.
+Print Assumptions C13_source_tie_perl_init_generated_tables.
+
+Theorem C13_source_tie_py_patterns :
+  src_pybrace_simple_field_re_pattern = pybrace_simple_field_pattern /\ src_pybrace_field_re_pattern = pybrace_field_re_pattern /\
+  src_pybrace_format_spec_re_pattern = pybrace_format_spec_re_pattern /\ src_pybrace_printable_pattern = printable_pattern /\
+  src_pybrace_error_classes = pybrace_error_classes.
+Proof. exact src_pybrace_patterns. Qed.
+Print Assumptions C13_source_tie_py_patterns.
+
+Theorem C13_source_tie_py_constants :
+  src_ssize_max = pb_ssize_max_std /\ src_nested_types = t_all /\ src_ssize_max = gen_pybrace_ssize_max.
+Proof. exact (conj (proj1 src_pybrace_constants) (conj (proj2 src_pybrace_constants) src_ssize_max_gen)). Qed.
+Print Assumptions C13_source_tie_py_constants.
+
+(* FormatString.add_argument: the new _next_arg_index, the key the field is filed under, IndexError / OverflowError *)
+Theorem C13_source_tie_py_add_argument : forall U st m name c,
+  src_pybrace_add_argument (model_oracles U) {| s_amap := Some m; s_next := b_next st |} name c =
+  of_add m c (add_argument U src_ssize_max st name).
+Proof. exact src_add_argument_eq. Qed.
+Print Assumptions C13_source_tie_py_add_argument.
+
+(* Field.__init__: numbering errors, nested fields, the type set of a format spec, the conversion check *)
+Theorem C13_source_tie_py_field_init : forall U st f a b, nested_ok (f_nested f) ->
+  src_pybrace_field_init (model_oracles U) (st_of st) {| pm_start := a; pm_end := b; pm_groups := BField f |} =
+  of_st (field_init U src_ssize_max st f).
+Proof. exact src_field_init_eq. Qed.
+Print Assumptions C13_source_tie_py_field_init.
+
+(* the assumption of the previous theorem holds for every match the scanner produces *)
+Theorem C13_source_tie_py_scanner_wf : forall U s it r, m_field_re U s = Some (it, r) ->
+  suffix r s /\ match it with BLit _ => True | BField f => nested_ok (f_nested f) end.
+Proof. exact m_field_re_facts. Qed.
+Print Assumptions C13_source_tie_py_scanner_wf.
+
+(* pybrace.FormatString.__init__: argument_map (per key, the `types` of every filed object) or the exception *)
+Theorem C13_source_tie_py_init : forall U s,
+  src_pybrace_init (model_oracles U) (pb_finditer U) s = of_sig (pybrace_parse U src_ssize_max s).
+Proof. exact src_pybrace_init_eq. Qed.
+Print Assumptions C13_source_tie_py_init.
+
+Theorem C13_source_tie_py_init_generated_tables : forall s,
+  src_pybrace_init (model_oracles gen_ucd) (pb_finditer gen_ucd) s = of_sig (pybrace_parse_gen s).
+Proof. exact src_pybrace_init_gen. Qed.
+Print Assumptions C13_source_tie_py_init_generated_tables.
+
+(* non-vacuity: the translated code run on "{0:d}{0:s}" (type mismatch), "{a:{}}{:>3}" (nested + automatic numbering), "{x}y{" *)
+Example C13_src_ex :
+  src_pybrace_init (model_oracles gen_ucd) (pb_finditer gen_ucd) [123;48;58;100;125;123;48;58;115;125] = BRaise (XOwn BTypeMismatch) /\
+  src_pybrace_init (model_oracles gen_ucd) (pb_finditer gen_ucd) [123;97;58;123;125;125;123;58;62;51;125] =
+    BRet [(KName [97], [Some t_all]); (KNum 0%Z, [Some t_all]); (KNum 1%Z, [Some t_all])] /\
+  src_perlbrace_init (perl_finditer re_w re_d) [123;120;125;121;123] = BRaise (XOwn (PerlError [123])) /\
+  src_perlbrace_init (perl_finditer re_w re_d) [123;120;125;121;123;120;125] = BRet ([[123;120;125]; [121]; [123;120;125]], [[120]]).
+Proof. repeat split; vm_compute; reflexivity. Qed.
